@@ -367,6 +367,27 @@ def authorityValidateF (ints roots : List Cert) (n : Names) : Verdict :=
   | none => .allow
   | some ch => validateF (NewF (ch.map (·.nc))) n
 
+/-! ### root bundle (authority/options.go `readCertificateBundle`, used by `WithX509RootBundle`) -/
+
+/-- one PEM block of a root bundle -/
+inductive Block where
+  | cert (c : Cert)   -- type CERTIFICATE, no headers, parses
+  | badCert           -- type CERTIFICATE, no headers, `x509.ParseCertificate` fails
+  | skip              -- any other block (a CRL, a key, a CERTIFICATE block with headers)
+  deriving Repr, DecidableEq
+
+/-- `readCertificateBundle`: blocks that are not plain CERTIFICATE blocks are skipped wherever
+    they stand, a certificate that does not parse fails the whole bundle (`none`) -/
+def readBundle : List Block → Option (List Cert)
+  | [] => some []
+  | .skip :: rest => readBundle rest
+  | .badCert :: _ => none
+  | .cert c :: rest => (readBundle rest).map (c :: ·)
+
+/-- the authority's decision when its roots come from a bundle (`none`: the authority does not start) -/
+def authorityValidateB (ints : List Cert) (bundle : List Block) (n : Names) : Option Verdict :=
+  (readBundle bundle).map fun roots => authorityValidateF ints roots n
+
 /-! ### specification: RFC 5280 §6.1.4 (g), every certificate of the path on its own
 
   Subtree membership is the one of today's `crypto/x509` (go1.23), which is what relying parties
@@ -419,6 +440,7 @@ def validatePerCert (chain : List Level) (n : Names) : Verdict :=
 
 inductive Front where
   | sign | renew | rekey | acme | scep
+  | renewTok   -- POST /renew authenticated with `Authorization: Bearer <x5cInsecure renew token>`
   deriving Repr, DecidableEq
 
 /-- class of an answer: a certificate, a refusal that blames the request (HTTP 4xx, ACME problem
@@ -445,6 +467,13 @@ def frontAnswerOld : Front → Verdict → FrontAns
   | .acme, _ => .serverError
   | _, .deny _ _ => .clientError
   | _, _ => .serverError
+
+/-- the token-authenticated `/renew`: `AuthorizeRenewToken` first verifies the certificate's own
+    chain (the x5cInsecure header) against the configured roots with `x509.Verify`; `pathOk` is
+    that verification's verdict on the names (external: the old chain is not the CA's). A chain
+    that does not verify is answered 401, otherwise the request goes on like any renewal. -/
+def renewTokAnswer (pathOk : Bool) (v : Verdict) : FrontAns :=
+  if pathOk then frontAnswer .renewTok v else .clientError
 
 /-- what C05 demands of a front end: a certificate iff the names are allowed, and a refusal for
     name constraints (`deny`) is a client error; for the other refusals (unparsable rfc822Name:
